@@ -59,6 +59,15 @@ def _apply_perturb(data, p):
         pl[off % len(pl)] = byte & 0xFF
         chunks[i] = (cid, bytes(pl))
         return chunkio.join(chunks)
+    if kind == "in":  # ["in", n, inner]: apply `inner` inside the n-th embedded container (project / effect synth)
+        _, n, inner = p
+        chunks = [(nm, pl) for _, nm, pl in chunkio.split(data)]
+        idxs = [i for i, (nm, pl) in enumerate(chunks) if nm == b"CHDT" and chunkio.is_container(pl)]
+        if not idxs:
+            return _apply_perturb(data, inner)
+        i = idxs[n % len(idxs)]
+        chunks[i] = (b"CHDT", _apply_perturb(chunks[i][1], inner))
+        return chunkio.join(chunks)
     if kind == "strip":  # ["strip", chunk_id]: remove every chunk with that id (outer stream)
         cid = p[1].encode()
         return chunkio.join([(nm, pl) for _, nm, pl in chunkio.split(data) if nm != cid])
